@@ -335,7 +335,7 @@ def judge_contest_level(m, N, tallies, alpha, r1):
     return out, want
 
 
-def judge_audit_with_data(m, N, tallies, L, alpha):
+def judge_audit_with_data(m, N, tallies, L, alpha, margins_from="cvrs"):
     """Audit.find_sample_size given a sample of manual records: per assertion the deterministic estimate on that assertion's
     own data (tiled), per contest the maximum over its unconfirmed assertions"""
     a_, b_, c_ = tallies
@@ -353,11 +353,19 @@ def judge_audit_with_data(m, N, tallies, L, alpha):
             Assertion.make_all_assertions(cons)
             audit = Audit.from_dict({"quantile": 0.5, "error_rate_1": 0, "error_rate_2": 0, "reps": None, "sim_seed": 1,
                                      "strata": {"s": {"max_cards": N, "use_style": True, "replacement": False}}})
-            Assertion.set_all_margins_from_cvrs(audit, cons, cvrs)
+            if margins_from == "tally":  # margins from the reported tallies: this route does not touch the tests' bound
+                Contest.tally(cons, cvrs, enforce_rules=False)
+                con.find_margins_from_tally()
+            else:
+                Assertion.set_all_margins_from_cvrs(audit, cons, cvrs)
             idx = list(range(0, N, max(1, N // L)))[:L]  # a spread-out sample of L cards
             cvr_sample = [cvrs[i] for i in idx]
             mvr_sample = [CVR(id=c.id, votes={k: dict(v) for k, v in c.votes.items()}) for c in cvr_sample]
             mvr_sample[-1] = CVR(id=cvr_sample[-1].id, votes={"con": {"B": True}})  # one card read differently by hand
+            if margins_from == "tally":  # and one two-vote understatement (the datum equals the comparison bound)
+                lo = next((k_ for k_, c_ in enumerate(cvr_sample[:-1]) if c_.votes["con"].get("B")), None)
+                if lo is not None:
+                    mvr_sample[lo] = CVR(id=cvr_sample[lo].id, votes={"con": {"A": True}})
             for c in cvr_sample:
                 c.sampled = True
             want = {}
@@ -371,7 +379,7 @@ def judge_audit_with_data(m, N, tallies, L, alpha):
         except Exception as e:  # noqa
             return [(f"C16|audit-with-data|exception|{type(e).__name__}", f"{type(e).__name__}: {str(e)[:80]}")], None
     if got != max(want.values()):
-        return [("C16|audit-with-data|contest-estimate", f"per-assertion first crossings on their own tiled data {want}, contest.sample_size {got} (N={N}, tallies {tallies}, sample of {L})")], got
+        return [("C16|audit-with-data|contest-estimate" + ("|margins-from-tally" if margins_from == "tally" else ""), f"per-assertion first crossings on their own tiled data {want}, contest.sample_size {got} (N={N}, tallies {tallies}, sample of {L})")], got
     return [], got
 
 
@@ -657,6 +665,12 @@ def run_shard(sh, rec):
                             rec.vac("audit_with_data_cases")
                             for key, what in v:
                                 rec.violate(key, what, {"kind": "auditdata", "m": mi, "N": N, "tallies": [a_, b_, c_], "alpha": alpha, "L": L})
+                            v, got = judge_audit_with_data(m, N, (a_, b_, c_), L + 2, alpha, "tally")
+                            rec.trans()
+                            rec.evals(4)
+                            rec.vac("audit_with_data_margins_from_tally")
+                            for key, what in v:
+                                rec.violate(key, what, {"kind": "auditdata", "m": mi, "N": N, "tallies": [a_, b_, c_], "alpha": alpha, "L": L + 2, "margins_from": "tally"})
     elif kind == "nostyle":
         _, mi = sh
         for N in (8, 12):
@@ -767,7 +781,7 @@ def run_case(case):
     if k == "prefixsim":
         return judge_audit_prefix_sim(METHODS[case["m"]], case["N"], case["k_win"], case["L"], case["alpha"])[0]
     if k == "auditdata":
-        return judge_audit_with_data(METHODS[case["m"]], case["N"], tuple(case["tallies"]), case["L"], case["alpha"])[0]
+        return judge_audit_with_data(METHODS[case["m"]], case["N"], tuple(case["tallies"]), case["L"], case["alpha"], case.get("margins_from", "cvrs"))[0]
     if k == "wide":
         return judge_contest_wide(METHODS[case["m"]], case["ncand"], case["alpha"], case["hit"])[0]
     if k == "raire":
